@@ -1,4 +1,68 @@
-(* C10 — statements are being added; see DESIGN.md section 7. *)
-From XSG.Model Require Import Strings.
-Example C10_placeholder : True. Proof. exact I. Qed.
-Print Assumptions C10_placeholder.
+(* C10 — Options change exactly what they name and nothing else.
+   * the derive string is reproduced verbatim on every struct, none when it is empty;
+   * attribute prefix and text identifier only change the serde names: a rename is emitted for an
+     attribute / child exactly when the bound name differs from the field identifier, the text
+     field is always renamed to the text identifier;
+   * everything else (structs, their names and order, fields, identifiers, wrappers, types, field
+     order) depends on the `sort` option only — not on prefix, text identifier, derive, hence not
+     on the choice between the two presets.
+   Only statements; every proof is `exact <lemma of Proofs/RenderProofs.v>`. *)
+From Coq Require Import String.
+From XSG.Model Require Import Strings Convert Necessity Element Render.
+From XSG.Proofs Require Import RenderProofs.
+Local Open Scope list_scope.
+
+Theorem C10_derive : forall o e,
+  Forall (fun d => sd_derive d = if is_nil (derive o) then None else Some (derive o)) (render_abs o e).
+Proof. exact render_derive. Qed.
+
+(* byte level: every struct item starts with the derive line (verbatim) when the string is
+   non-empty, and directly with `pub struct ` when it is empty *)
+Theorem C10_print_derive : forall o e,
+  Forall (fun d => exists rest,
+            print_struct d
+            = (if is_nil (derive o) then []
+               else s "#[derive(" ++ derive o ++ s ")]" ++ nl) ++ s "pub struct " ++ rest)
+         (render_abs o e).
+Proof. exact render_print_derive. Qed.
+
+Theorem C10_rename_iff : forall o e,
+  Forall (fun d => Forall (fun f =>
+    (f_kind f = FAttr ->
+     f_rename f = (let sn := attribute_prefix o
+                             ++ (if starts_with_xmlns (f_xml f) then f_xml f
+                                 else remove_namespace (f_xml f)) in
+                   if str_eqb (f_ident f) sn then None else Some sn)) /\
+    (f_kind f = FChild ->
+     f_rename f = (let sn := remove_namespace (f_xml f) in
+                   if str_eqb (f_ident f) sn then None else Some sn)) /\
+    (f_kind f = FText -> f_rename f = Some (text_identifier o))) (sd_fields d)) (render_abs o e).
+Proof. exact render_rename. Qed.
+
+Theorem C10_orthogonal : forall o1 o2 e,
+  sort o1 = sort o2 ->
+  map (fun d => (sd_name d, map (fun f => (f_kind f, f_xml f, f_ident f, f_wrap f, f_ty f)) (sd_fields d)))
+      (render_abs o1 e)
+  = map (fun d => (sd_name d, map (fun f => (f_kind f, f_xml f, f_ident f, f_wrap f, f_ty f)) (sd_fields d)))
+        (render_abs o2 e).
+Proof. exact render_orthogonal. Qed.
+
+(* the two presets differ in the attribute prefix only: same structs, fields, identifiers, types, order *)
+Theorem C10_presets : forall e,
+  map erase_bindings (render_abs quick_xml_de e) = map erase_bindings (render_abs serde_xml_rs e).
+Proof. exact (fun e => render_orthogonal quick_xml_de serde_xml_rs e eq_refl). Qed.
+
+Example C10_example :
+  let e := Elem (s "r") true true 1 [(Mand, s "type"); (Opt, s "p:k")]
+             [(Opt, Elem (s "a-b") false false 2 [(Mand, s "k")] [] (Some 0%nat))] None in
+  let o := {| text_identifier := s "#t"; attribute_prefix := s "$$"; derive := []; sort := XmlName |} in
+  to_serde_struct o e <> to_serde_struct {| text_identifier := s "$text"; attribute_prefix := s "@"; derive := s "Debug"; sort := XmlName |} e
+  /\ List.length (render_abs o e) = 2%nat.
+Proof. split; [vm_compute; discriminate | vm_compute; reflexivity]. Qed.
+
+Print Assumptions C10_derive.
+Print Assumptions C10_print_derive.
+Print Assumptions C10_rename_iff.
+Print Assumptions C10_orthogonal.
+Print Assumptions C10_presets.
+Print Assumptions C10_example.
